@@ -219,8 +219,8 @@ func init() {
 		// ... also for a step that has an env of its own, signed and verified together with a pipeline env that the
 		// step's env partly shadows (repeated: Go walks the env map in a different order each time)
 		{
-			stp := &signature.CommandStepWithInvariants{CommandStep: pipeline.CommandStep{Command: "echo env", Env: map[string]string{"SHADOWED": "step", "OWN": "1"}}, RepositoryURL: "repo"}
-			penv := map[string]string{"SHADOWED": "pipeline", "PIPE_A": "a", "PIPE_B": "b", "PIPE_C": "c"}
+			stp := &signature.CommandStepWithInvariants{CommandStep: pipeline.CommandStep{Command: "echo env", Env: map[string]string{"SHADOWED": "step", "OWN": "1", "BLANKED": ""}}, RepositoryURL: "repo"}
+			penv := map[string]string{"SHADOWED": "pipeline", "BLANKED": "pipeline", "PIPE_A": "a", "PIPE_B": "b", "PIPE_C": "c"}
 			for _, a := range []jwa.SignatureAlgorithm{jwa.EdDSA, jwa.ES512} {
 				priv, pub, err := jwkutil.NewKeyPair("env-kid", a)
 				if err != nil {
